@@ -17,6 +17,9 @@ values as arguments and that overload's result count; otherwise `luaL_error` and
   `single_call_unchecked` characterises what happens otherwise and
   `single_call_full_statement_false` is the negation witness (open finding).
 * `old_method_dispatch_wrong`: the body written before 5605135 violates the statement for methods.
+
+Not modelled: which C++ overload g++ selects for the emitted call expression (observed by the
+emulator oracle; repaired for std::string/bool in d443a4b) and the Lua C API itself.
 -/
 namespace Shroud.LuaDispatch
 
@@ -348,6 +351,14 @@ theorem idxFrom_get (i : Nat) : ∀ (n j : Nat), j < n → (idxFrom i n)[j]? = s
       simp only [idxFrom, List.getElem?_cons_succ]
       rw [ih (i + 1) j (by omega)]
       congr 1; omega
+
+/-- argument `i` (0-based) of every call is read from stack index `i + 1`, for a method `i + 2` -/
+theorem argument_read_from (k : Kind) (ci : Nat) (c : Call) (i : Nat) (h : i < c.nargs) :
+    (emitOf k (Layout.fixed k) ci c).pops[i]? = some (1 + k.selfOffset + i) := by
+  rw [(argument_indices k ci c).1]
+  exact idxFrom_get _ _ _ h
+
+example : (emitOf .method (Layout.fixed .method) 0 ⟨0, [.number, .string], 1⟩).pops = [2, 3] := by decide
 
 /-! ### the body written before the repair -/
 
